@@ -593,6 +593,13 @@ func New(cfg Config) (*Instance, error) {
 	probe = authboss.Middleware2(ab, authboss.MWRequirements(cfg.MWReqs), fail)(probe)
 	mux.Handle("/probe", probe)
 	mux.Handle("/probe/", probe)
+	// protected pages that live under the "not ok" landing pages' paths
+	mux.Handle("/no/confirm/zone", probe)
+	mux.Handle("/no/lock/zone", probe)
+	mux.Handle("/ok/login/zone", probe)
+	// the same handler behind the mount-pathed variant (as authboss's own routes use it)
+	mprobe := authboss.MountedMiddleware2(ab, true, authboss.MWRequirements(cfg.MWReqs), fail)(http.HandlerFunc(in.probeHandler))
+	mux.Handle("/mprobe/", mprobe)
 
 	var h http.Handler = mux
 	if cfg.Has("expire") {
